@@ -5,6 +5,7 @@ CONSTANTS
   Buffers = {0, 1, 2}
   QCaps = {1, 2}
   MaxPanics = 1
+  LateResult = FALSE
   FifoSend = TRUE
   AtomicLast = TRUE
 INVARIANTS EmitSchedule
